@@ -14,7 +14,7 @@ ERRNO = {"ENOSPC": _errno.ENOSPC, "EACCES": _errno.EACCES, "EIO": _errno.EIO, "E
 
 _real = {}
 _lock = threading.RLock()
-_active = None  # the Recorder in force
+_active = None  # the Recorder in force, or {thread name: Recorder}
 
 
 def _save():
@@ -77,7 +77,7 @@ class Recorder:
             j = self.n
             act = self.plan.get(j)
         if self.on_call is not None:
-            self.on_call(self, j, op, path)
+            self.on_call(self, j, op, path, path2)
         ev = {"op": op, "res": "ok", "h": h, "path": path, "path2": path2, "chunk": chunk, "mode": int(mode), "j": j}
         if act is not None and act[0] == "kill":
             self.events.append({"op": "kill", "res": "ok", "h": "-", "path": "-", "path2": "-", "chunk": "-", "mode": 0, "j": j})
@@ -196,8 +196,15 @@ def chunk_id(text):
     return _chunk_id(text)
 
 
-def _rec_for(path):
+def _current():
     r = _active
+    if isinstance(r, dict):
+        return r.get(threading.current_thread().name)
+    return r
+
+
+def _rec_for(path):
+    r = _current()
     if r is None:
         return None
     if r.who is not None and threading.current_thread().name not in r.who:
@@ -227,7 +234,7 @@ def install(rec):
         return FileProxy(r, real, h, writable)
 
     def p_fdopen(fd, mode="r", *a, **kw):
-        r = _active
+        r = _current()
         if r is None or fd not in r.handles:
             return R["fdopen"](fd, mode, *a, **kw)
         h = r.handles[fd]
@@ -251,7 +258,7 @@ def install(rec):
             j = r.n
             act = r.plan.get(j)
         if r.on_call is not None:
-            r.on_call(r, j, "mkstemp", "tmp?")
+            r.on_call(r, j, "mkstemp", "tmp?", "-")
         if act is not None and act[0] == "kill":
             r.events.append({"op": "kill", "res": "ok", "h": "-", "path": "-", "path2": "-", "chunk": "-", "mode": 0, "j": j})
             if r.kill_mode == "exit":
@@ -284,13 +291,13 @@ def install(rec):
         return f
 
     def p_fchmod(fd, mode):
-        r = _active
+        r = _current()
         if r is None or fd not in r.handles:
             return R["fchmod"](fd, mode)
         return r.call("fchmod", lambda: R["fchmod"](fd, mode), h=r.handles[fd], mode=mode & 0o7777)
 
     def p_fsync(fd):
-        r = _active
+        r = _current()
         h = None
         if r is not None:
             h = r.handles.get(fd)
